@@ -26,7 +26,7 @@ abbrev FS := List (Nat × FEntry)       -- a file id that is absent does not exi
 
 def FS.get? (fs : FS) (n : Nat) : Option FEntry := (fs.find? (·.1 == n)).map (·.2)
 
-inductive IncErr where
+inductive InclErr where
   | badName (inFile pos : Nat)
   | missing (inFile pos : Nat)
   | isDirectory (inFile pos : Nat)
@@ -36,7 +36,7 @@ inductive IncErr where
   deriving DecidableEq, Repr
 
 inductive ProjErr where
-  | inc (e : IncErr)
+  | inc (e : InclErr)
   | ctx (e : CtxErr)
   deriving DecidableEq, Repr
 
